@@ -167,6 +167,7 @@ def dispatch (op : String) (args : List Str) : String :=
   | "roundtrip", [s] => opRoundtrip s
   | "thm04", [s] => opThm04 s
   | "thm08", [s] => opThm08 s
+  | "thm10", [s] => opThm10 s
   | "thm15", [s] => opThm15 s
   -- `deeptext` / `deepcdata`: the same node kinds at the deepest place the parser allows (the model of the data does not care)
   | "chardata", ('d' :: 'e' :: 'e' :: 'p' :: k) :: c :: ops => chardata (String.ofList k) c ops
